@@ -21,6 +21,7 @@ UNSIGNED = ['uint8', 'uint16', 'uint32', 'uint64']
 # the name `size`): `to_json()` / `__str__` print it (stale: 0 on a fresh object), and the object model (`Val.struct`, Render.lean
 # `toJson` / `toStr`) has no such member. Switch on once the object model follows (or the generator filters by `@size`).
 RENAMED_SIZE_MEMBERS = False
+IMPLICIT_FACTORIES = True  # an @is_size_implicit abstract family measured by a sizeof member of its holder
 
 
 class SchemaGen:
@@ -355,6 +356,30 @@ class SchemaGen:
 		self.emit(*lines)
 		return container
 
+	def implicit_factory(self):
+		"""Abstract struct without a size member (@is_size_implicit), measured by a sizeof member of its holder; a child may end in a fill
+		array, which then has to stop where the sizeof member says (more members follow in the holder)."""
+		kind_enum = self.fresh('Kind')
+		child_count = self.rng.randrange(2, 4)
+		self.emit(f'enum {kind_enum} : uint8', *[f'\tK{index}X = {index + 1}' for index in range(child_count)])
+		base = self.fresh('Inner')
+		self.emit('@is_size_implicit', '@initializes(kind, KIND)', '@discriminator(kind)', f'abstract struct {base}', f'\tkind = {kind_enum}',
+			f'\tfee = {self.rng.choice(INT_TYPES)}')
+		filled = self.rng.randrange(child_count)
+		for index in range(child_count):
+			child = self.fresh('InnerChild')
+			body = [f'struct {child}', f'\tKIND = make_const({kind_enum}, K{index}X)', f'\tinline {base}']
+			if index != filled or self.rng.random() < 0.5:
+				body.append(f'\tnote{index} = {self.rng.choice(INT_TYPES)}')
+			if index == filled and self.leaf_structs:
+				body += self.fill_array('items')
+			self.emit(*body)
+		holder = self.fresh('Envelope')
+		self.emit(f'struct {holder}', f'\tinner_size = sizeof({self.rng.choice(["uint16", "uint32"])}, inner)', f'\tinner = {base}',
+			f'\ttrailer = {self.rng.choice(["uint16", "uint32"])}')
+		self.features.add('sizeof-abstract-member-with-fill-array')
+		return holder
+
 	# endregion
 
 	def build(self):
@@ -374,6 +399,8 @@ class SchemaGen:
 			self.conditional_struct()
 		if self.variant is not None or self.rng.random() < 0.7:
 			self.factory()
+		if IMPLICIT_FACTORIES and ((self.rng.random() < 0.5) if self.variant is None else (0 == self.variant % 2)):
+			self.implicit_factory()
 		if self.rng.random() < 0.5:
 			self.variable_struct()
 		return '\n'.join(self.lines).rstrip('\n') + '\n'
